@@ -82,7 +82,7 @@ def run(ctx):
     b = build.Builder()
     exe = b.harness('asan', 'hdrenum', ['h_hdrenum.c', 'ref_hdrrules.c'])
     rnd = random.Random(ctx.seed)
-    nb = 40 if ctx.tier == 'quick' else 2000
+    nb = 240 if ctx.tier == 'quick' else 6000
     bs = bases(rnd, nb)
     second = H.build(H.simple_member(b'second-member', b'NEXT', level=2))
     scratch = os.path.join(build.scratch_root(), 'c12')
